@@ -54,3 +54,25 @@ chk("C15", "translation_validation",
 chk("C17", "translation_validation",
     "All 256 ordered operator pairs with differently typed operands, unary/binary, & vs &&, cast vs parenthesis, ?: and assignment associativity, else binding, nesting, look-alike tokens: the parse the compiler used must give the C value for all operand values (independent precedence-climbing parser as oracle). Determinism: the same texts parsed in 8/32 fresh processes with different PYTHONHASHSEED and fresh/reused parser objects (concrete runs).",
     _TVNOTE + " Lark's Earley parser cannot be run on symbolic text: structure is checked through the values it determines; the hash-seed dimension is enumerated.", "TV: SMT translation validation of parse-determined semantics + enumerated hash seeds", "DESIGN.md 3/C17")
+ENGINES.append(dict(name="CH", path="/verif/vf/chrun.py", serves_properties=["C04", "C13", "C14", "C18", "C20"],
+    kind_free_text="CrossHair (symbolic execution of the real Python functions with z3, every path under a time budget) on harness functions whose PEP-316 postcondition states the property; counterexamples replayed in CPython; vacuity twins"))
+ENGINES.append(dict(name="SHIM", path="/verif/vf/shim/", serves_properties=["C19", "C20"],
+    kind_free_text="the real regex helper functions run on symbolic byte buffers: their module global `re` is replaced by a stand-in that emits a bounded Boolean/bit-vector encoding of CPython's leftmost/greedy-backtracking semantics (BVRE); z3 decides; encoder validated against CPython re"))
+chk("C04", "other",
+    "CrossHair on the real c11_cast / promoted_type / ValueType.__eq__ with symbolic (signed, width 1..2048, group flags): result equals the C11 6.3.1.8 table (rank = width), symmetric, deterministic, arguments unmodified and unaliased, promotion threshold 32; 'Confirmed over all paths' for every condition, a vacuity twin must be refuted.",
+    "Trusted: CrossHair's path exploration and z3; bounds: widths 1..2048.", "CH: CrossHair symbolic execution of the real functions (z3 per path)", "DESIGN.md 3/C04")
+chk("C13", "other",
+    "(a) CrossHair inductive step on the real HexagonTransformerExtension from an ARBITRARY pre-state (flags, leftover predicates on instance and class): reset_flags + <=2 (thorough 3) symbolic events + get_meta equals the spec of the events alone - covers histories of any length. (b) all 2^9 attribute-relevant construct combinations and two-part instructions compiled on a used transformer vs attributes derived from my own AST. (c) whole corpus, no-op list, unimplemented marker.",
+    "Trusted: CrossHair/z3; my own parser's feature extraction. The construct->callback mapping has no value dimension and is enumerated.", "CH: CrossHair inductive step on the attribute state machine + enumerated construct combinations", "DESIGN.md 3/C13")
+chk("C14", "model_checking",
+    "(a) the C13 inductive step (attributes, arbitrary pre-state). (b) bounded model checking of histories on the real code: every (input, entry point, instance) prefix of length <= 1, a seeded sample (thorough: all) of length 2 and seeded length 3 over a pool of 10 behaviours + 6 failing inputs, two entry points and two Compiler instances, each followed by probes compared with a FRESH process (text equal up to temporary renaming/comments, else IL==IL solver query; attributes equal; same accept/reject). (c) state-footprint step after every single entry-point call.",
+    "Trusted: the footprint's list of persistent state (whitelist: temporary counter, statistics, compiled_insns registry, HYBRID_LVAR bit on sub-routine return types). Histories longer than the bound rely on (a) and (c).", "bounded model checking of compilation histories on the real code + CrossHair induction + SMT IL==IL oracle", "DESIGN.md 3/C14")
+chk("C18", "other",
+    "CrossHair on the real Parser.parse / parse_single under environment stubs (Pool.imap by its documented contract, Lark raising arbitrary exception classes for broken behaviours): for every choice of entries, parts, broken parts and exception class: one entry per name, trees in order, failures isolated with the error's class name, equal to sequential parsing. The real pool is additionally run with sizes 1, 2, 16 on corpus subsets with injected broken behaviours (concrete validation of the stub's contract).",
+    "Pool sizes and task interleavings are discharged BY imap's documented contract, not explored: multiprocessing's C/OS scheduling cannot be encoded by any engine here.", "CH: CrossHair on the pool glue under contract stubs (+ concrete runs of the real pool)", "DESIGN.md 3/C18")
+chk("C19", "other",
+    "The real split_resolved_shortcode and split_compounds executed on symbolic byte buffers (BVRE encoding of their regexes): for every 'insn(' NAME ', ' BODY ')' ['\\n'] line within the bound the recovered NAME/BODY equal the inputs and the no-match branch is infeasible; for every '{' PRE MARK '{' P1 '}' MARK P2 '}' the parts are exactly '{P1}' / '{P2}'. All 2181 bundled lines / 72 compounds executed against an independent splitter; malformed lines must raise.",
+    "Bounds: line buffer 30/40 bytes (NAME <= 8), compound buffer 56/64 bytes, printable ASCII. BVRE supports the regex subset these functions use; validated against CPython re on every run.", "SHIM: real functions on symbolic strings, bounded bit-vector encoding of CPython re, z3", "DESIGN.md 3/C19")
+chk("C20", "other",
+    "(1) the real replace_do_while_0 on symbolic buffers (one / two sequential / two nested wrappers built from free fragments; its while loop run with one decision per search and a termination obligation): result == input with every wrapper replaced by its body; look-alikes by concrete differential against a token-level remover. (2) CrossHair on the real patch_macros (symbolic choice of names incl. duplicates, user-only and twice-defined patches, line continuation). (3) bundled domain executed: run_preprocess_steps() in a scratch copy reproduces the bundled files, names one-to-one, every resolved line equals cpp and clang -E output token-wise modulo the do-while(0) rewrite.",
+    "cleanup_macros and pcpp's fixpoint on GENERATED macro files are outside the claim (covered on the bundled files only). Bounds: 34/44-byte buffers, <= 3 macros, <= 2 patches.", "SHIM + CH: real functions on symbolic strings / symbolic choices; bundled domain executed against two independent preprocessors", "DESIGN.md 3/C20")
